@@ -15,3 +15,4 @@ import FpVerif.Properties.C07
 import FpVerif.Properties.C14
 import FpVerif.Properties.C12
 import FpVerif.Properties.C20
+import FpVerif.Properties.C18
